@@ -14,5 +14,7 @@ INVARIANT LawNormalAllowed
 INVARIANT LawNormalKeepsPoints
 INVARIANT LawStrictOnlyMulti
 INVARIANT LawLooseOnlyPoly
+INVARIANT NeverStuck
+PROPERTY RankDecreases
 PROPERTY Terminates
 CHECK_DEADLOCK FALSE
